@@ -147,8 +147,14 @@ func writeEvidence(cc *CheckCfg, tier string, seed int, runs []*harnessRun, wall
 		"wall_s":      round2(wall.Seconds()),
 		"violations":  violations,
 	}
-	os.MkdirAll(filepath.Join(verifDir, "evidence"), 0o755)
 	b, _ := json.MarshalIndent(ev, "", " ")
+	if os.Getenv("GOSYM_REPO") != "" {
+		// a development run against a scratch worktree never touches the committed evidence
+		os.MkdirAll("/tmp/gosym_scratch_evidence", 0o755)
+		os.WriteFile(filepath.Join("/tmp/gosym_scratch_evidence", cc.Property+".json"), b, 0o644)
+		return
+	}
+	os.MkdirAll(filepath.Join(verifDir, "evidence"), 0o755)
 	os.WriteFile(filepath.Join(verifDir, "evidence", cc.Property+".json"), b, 0o644)
 }
 
